@@ -124,6 +124,27 @@ def lab_leg(instance, depth, nshards, inst, seed, sim=None, overrides=None, env_
     return cached(tree_hash() + json.dumps(params, sort_keys=True), go)
 
 
+def recipe_leg(instance, maxcalls, nshards, inst, seed, sim=None, env_extra=None, tag=""):
+    params = dict(kind="recipe", instance=instance, maxcalls=maxcalls, nshards=nshards, inst=inst, seed=seed, sim=sim,
+                  env=env_extra, tag=tag)
+
+    def go():
+        os.makedirs(os.path.join(BUILD, "run"), exist_ok=True)
+        cmds = []
+        for i in range(nshards):
+            out = os.path.join(BUILD, "run", f"recipe_{instance}_{maxcalls}_{i}_{nshards}_{inst[0]}_{seed}_{tag}_{os.getpid()}.json")
+            argv = [PY, os.path.join(HERE, "recipe_worker.py"), instance, str(maxcalls), str(i), str(nshards), inst[0], inst[1], str(seed), out]
+            if sim:
+                argv.append(f"simulate={sim[0]},{sim[1]},{sim[2] + i}")
+            e = dict(env_extra or {})
+            e["VERIF_TAG"] = f"_{tag}_{os.getpid()}"
+            cmds.append((argv, e, out))
+        t0 = time.time()
+        shards = run_workers(cmds)
+        return dict(params=params, shards=shards, wall=time.time() - t0)
+    return cached(tree_hash() + json.dumps(params, sort_keys=True), go)
+
+
 def units_leg(inst, seed, env_extra=None, tag=""):
     params = dict(kind="units", inst=inst, seed=seed, env=env_extra, tag=tag)
 
@@ -188,6 +209,13 @@ def plan(prop, tier, seed):
             legs.append(lambda: lab_leg("LabSOL", 1, 16, REALISTIC, seed, overrides=full, tag="full"))
             legs.append(lambda: lab_leg("LabSOL", 1, 16, DECIMAL, seed, overrides=full, tag="fulldec"))
             legs.append(lambda: lab_leg("LabSOL", 1, 16, ("777.7", "31000"), seed, overrides=full, tag="fullodd"))
+    if prop == "C16":
+        legs.append(lambda: recipe_leg("RecipeLife", 5 if q else 6, 16, REALISTIC, seed))
+    if prop in ("C08", "C09", "C15", "C16", "C17", "C04", "C03"):
+        legs.append(lambda: recipe_leg("RecipeProg", 3 if q else 4, 16, REALISTIC, seed))
+        if not q:
+            legs.append(lambda: recipe_leg("RecipeProg", 3, 16, DECIMAL, seed, tag="dec"))
+            legs.append(lambda: recipe_leg("RecipeCore", 9, 16, REALISTIC, seed, sim=(40, 9, seed * 100 + 1), tag="sim"))
     if prop in ("C06", "C14", "C19"):
         legs.append(lambda: units_leg(REALISTIC, seed))
         if not q:
@@ -252,7 +280,7 @@ def conclude(prop, tier, seed, legs, wall):
         for sh in leg["shards"]:
             summ["states"] += sh.get("distinct_states", 0)
             summ["transitions"] += sh["tlc"]["generated"] if "tlc" in sh else sh.get("transitions", 0)
-            summ["executed"] += sh["counts"].get("executed", 0) if leg["params"]["kind"] == "lab" else sh["evaluated"].get(prop, 0)
+            summ["executed"] += sh["counts"].get("executed", 0) if leg["params"]["kind"] in ("lab", "recipe") else sh["evaluated"].get(prop, 0)
             summ["skipped_behind_divergence"] += sh["counts"].get("skipped_unreachable", 0)
             summ["evaluated"] += sh["evaluated"].get(prop, 0)
             for vc in sh["violation_counts"]:
